@@ -6,6 +6,8 @@
 //                 list.last()->next()->prev() = after;
 // build: g++ -std=gnu++14 -DNDEBUG -I/repo/src -I<dir with soplex/config.h> FILE /repo/src/soplex/{didxset,idxset,nameset,spxdefines,spxout,spxid,mpsinput,usertimer,wallclocktimer,spxgithash}.cpp -lgmp -lmpfr -lz   (add -fsanitize=address to see the memory errors)
 #include <cstdio>
+#include "soplex/spxdefines.h"
+#include "soplex/spxalloc.h"
 #include "soplex/idlist.h"
 using namespace soplex;
 struct P { int v; };
